@@ -131,6 +131,14 @@ def run_case(ns, mon, case):
         for o in c64:
             res[f"iter(const) element {len(res)}"] = (o, False)
         res["builtin sum(x)"] = (sum(x64), True)
+        # operands of different floating dtypes: the result follows the mode whichever side requires grad
+        c32 = T(np.array([0.5, 1.5, 2.5], dtype=np.float32))
+        res["mul(const float32, req float64)"] = (c32 * x64, True)
+        res["mul(req float32, const float64)"] = (x32 * c64, True)
+        res["div(const float32, req float64)"] = (c32 / x64, True)
+        res["add(const float64, req float32)"] = (c64 + x32, True)
+        res["sub(const float32, req float64)"] = (c32 - x64, True)
+        res["matmul(const float32, req float64)"] = (T(np.ones((2, 2), dtype=np.float32)) @ m22, True)
         # nn ops where exactly one (non-first) operand requires grad
         cb = T(np.array([[1.0, 2.0], [3.0, 5.0], [0.5, 0.1]]))
         wreq, breq = T(np.array([1.0, 2.0]), requires_grad=True), T(np.array([0.0, 1.0]), requires_grad=True)
@@ -434,6 +442,26 @@ def run_case(ns, mon, case):
                     bad("release:leaf-gradient:operand-frozen-after-forward", f"{opname}: after an operand was frozen between forward and backward the other leaves did not get their gradients")
             except Exception as e:
                 bad("mode:backward-raises:operand-frozen-after-forward", f"{opname}: backward raised {type(e).__name__} because an operand was frozen between forward and backward", error=str(e)[:120])
+        # an operand that holds a gradient from earlier training and is frozen now: ops that use it as a constant leave that gradient alone
+        for opname, mk in (("addmm", lambda f_, r_: sg.addmm(r_, f_, T(np.eye(2)))), ("addmm(frozen first)", lambda f_, r_: sg.addmm(f_, r_, T(np.eye(2)))),
+                           ("matmul", lambda f_, r_: f_ @ r_), ("mul", lambda f_, r_: f_ * r_), ("add", lambda f_, r_: r_ + f_), ("linear", lambda f_, r_: sg.linear(r_, f_, None)),
+                           ("linear(frozen bias)", lambda f_, r_: sg.linear(r_, T(np.eye(2)), f_[0])), ("stack", lambda f_, r_: sg.stack([f_, r_], 0)),
+                           ("concat", lambda f_, r_: sg.concat([r_, f_], 1)), ("mse", lambda f_, r_: sg.mse_loss(r_, f_))):
+            fz = T(np.array([[1.0, 2.0], [3.0, -1.0]]), requires_grad=True)
+            (fz * 3.0).sum().backward()
+            fz.requires_grad = False
+            keep_ = None if fz._grad is None else fz._grad.copy()
+            rq = T(np.array([[0.5, -1.0], [2.0, 1.0]]), requires_grad=True)
+            try:
+                mk(fz, rq).sum().backward()
+                counters["stale_gradient_frozen_operand_sweeps"] = counters.get("stale_gradient_frozen_operand_sweeps", 0) + 1
+                if (fz._grad is None) != (keep_ is None) or (keep_ is not None and not np.array_equal(fz._grad, keep_)):
+                    bad("propagation:frozen-operand-gradient-changed", f"{opname}: an operand that does not require grad (frozen, holding a gradient from before) had its .grad changed by a backward call",
+                        op=opname)
+                if rq._grad is None:
+                    bad("release:leaf-gradient:frozen-co-operand", f"{opname}: the operand that requires grad received no gradient", op=opname)
+            except Exception as e:
+                bad("mode:backward-raises:frozen-operand-with-stale-gradient", f"{opname}: raised {type(e).__name__}", error=str(e)[:120])
         if model["retain"]:
             if h1._grad is None or h2._grad is None:
                 bad("release:retain_grads-context-ignored", "intermediate gradients of a graph built and differentiated under retain_grads were released")
